@@ -58,3 +58,118 @@ def value_token(kind, v):
     if kind == "S":
         return "s%d" % v
     return "i%d" % v
+
+
+# ---------------------------------------------------------------- prototypes, points, programs
+
+def fnv_bytes(b, h=0xcbf29ce484222325):
+    for x in b:
+        h = ((h ^ x) * 0x100000001b3) & 0xFFFFFFFFFFFFFFFF
+    return h
+
+
+def fnv_hex(b):
+    return "%016x" % fnv_bytes(b)
+
+
+def rand_int_type(rng, kind=None, w=None):
+    """('I'|'S', min, max[, scalebits, offsetbits]) token parts with a width drawn from the grid"""
+    if w is None:
+        w = rng.choice([0, 1, 2, 3, 5, 7, 8, 9, 11, 15, 16, 17, 24, 31, 32, 33, 48, 63, 64]) if rng.chance(3, 4) else rng.range(0, 64)
+    mn, mx = rng.choice(int_ranges_for_width(w, rng))
+    kind = kind or ("S" if rng.chance(1, 3) else "I")
+    return kind, mn, mx
+
+
+def type_tok(rng, allow=("F", "D", "I", "S"), w=None):
+    k = rng.choice(list(allow))
+    if k in ("F", "D"):
+        return k
+    kind, mn, mx = rand_int_type(rng, k, w)
+    if kind == "S":
+        scale = rng.choice([0x3ff0000000000000, 0x3f50624dd2f1a9fc, 0x3fb999999999999a, 0x4000000000000000])
+        offset = rng.choice([0x0, 0x4059000000000000, 0xc024000000000000])
+        return "S/%d/%d/%016x/%016x" % (mn, mx, scale, offset)
+    return "I/%d/%d" % (mn, mx)
+
+
+def tok_width(t):
+    if t == "F":
+        return 32
+    if t == "D":
+        return 64
+    p = t.split("/")
+    return width_of(int(p[1]), int(p[2]))
+
+
+def rand_value(rng, t):
+    if t == "F":
+        return "f%08x" % (rng.choice(SPECIAL_F32) if rng.chance(1, 4) else rng.below(1 << 32))
+    if t == "D":
+        return "d%016x" % (rng.choice(SPECIAL_F64) if rng.chance(1, 4) else rng.below(1 << 64))
+    p = t.split("/")
+    mn, mx = int(p[1]), int(p[2])
+    c = rng.below(6)
+    v = mn if c == 0 else mx if c == 1 else rng.range(mn, mx)
+    return ("s%d" if p[0] == "S" else "i%d") % v
+
+
+def rand_proto(rng, small=False):
+    """A prototype that follows the writer's documented rules: list of (name, type token)."""
+    proto = []
+    coord = rng.below(3)
+    if coord in (0, 2):
+        t = type_tok(rng) if rng.chance(1, 2) else rng.choice(["F", "D"])
+        ts = [t, t, t] if rng.chance(2, 3) else [type_tok(rng) for _ in range(3)]
+        proto += list(zip(["x", "y", "z"], ts))
+        if rng.chance(1, 3):
+            proto.append(("cis", "I/0/2"))
+    if coord in (1, 2):
+        proto += [("sr", type_tok(rng)), ("sa", type_tok(rng, ("F", "D", "S"))), ("se", type_tok(rng, ("F", "D", "S")))]
+        if rng.chance(1, 3):
+            proto.append(("sis", "I/0/2"))
+    if not small or rng.chance(1, 2):
+        if rng.chance(1, 2):
+            proto.append(("in", type_tok(rng)))
+            if rng.chance(1, 3):
+                proto.append(("iin", "I/0/1"))
+        if rng.chance(1, 3):
+            t = type_tok(rng)
+            proto += [("r", t), ("g", t if rng.chance(2, 3) else type_tok(rng)), ("b", t)]
+            if rng.chance(1, 3):
+                proto.append(("ici", "I/0/1"))
+        if rng.chance(1, 4):
+            proto += [("row", type_tok(rng, ("I",))), ("col", type_tok(rng, ("I",)))]
+        if rng.chance(1, 5):
+            proto += [("rc", type_tok(rng, ("I",))), ("ri", type_tok(rng, ("I",)))]
+        if rng.chance(1, 5):
+            proto.append(("ts", type_tok(rng, ("D", "F", "S"))))
+            if rng.chance(1, 2):
+                proto.append(("its", "I/0/1"))
+    if rng.chance(1, 3):
+        rng2 = rng.fork()
+        for i in range(len(proto) - 1, 0, -1):
+            j = rng2.below(i + 1)
+            proto[i], proto[j] = proto[j], proto[i]
+    # at least one record of non-zero width (all-zero-width prototypes are rejected, see known findings)
+    if all(tok_width(t) == 0 for _, t in proto):
+        proto[0] = (proto[0][0], "F")
+    return proto
+
+
+def proto_capacity(proto):
+    bits = sum(tok_width(t) for _, t in proto)
+    n = len(proto)
+    return ((65535 - 6 - 2 * n - n - 500) * 8) // bits
+
+
+def proto_tok(proto):
+    return ",".join("%s=%s" % (n, t) for n, t in proto)
+
+
+def rand_points(rng, proto, count):
+    return [[rand_value(rng, t) for _, t in proto] for _ in range(count)]
+
+
+def points_tok(points):
+    return ";".join(",".join(p) for p in points)
